@@ -6,6 +6,7 @@ import (
 	"flag"
 	"fmt"
 	"os"
+	"runtime"
 	"runtime/debug"
 	"runtime/pprof"
 	"strconv"
@@ -28,6 +29,7 @@ func main() {
 	cpuprof := flag.String("cpuprofile", "", "write cpu profile")
 	bsurvey := flag.String("bsurvey", "", "debug: comma-separated packages (rel paths, root is \"\") to survey with the bounds engine")
 	flag.Parse()
+	go heapWatchdog(*prop)
 	if *bsurvey != "" {
 		prog, err := core.Load(core.LoadConfig{Dir: *repo})
 		if err != nil {
@@ -149,4 +151,30 @@ func toMeta(m rules.PropMeta, prop, tier string) core.Meta {
 	}
 	return core.Meta{Level: m.Level, Explanation: m.Explanation, TrustedBase: tb,
 		CheckerCmd: fmt.Sprintf("/verif/bin/pcheck -prop %s -tier %s", prop, tier)}
+}
+
+// heapWatchdog: an analysis that runs away on an unforeseen program shape must end as a broken check (exit 2,
+// nothing it says is believed), not take the machine down.
+func heapWatchdog(prop string) {
+	limit := uint64(24)
+	if s := os.Getenv("PCHECK_MAXHEAP_GB"); s != "" {
+		if n, err := strconv.Atoi(s); err == nil && n > 0 {
+			limit = uint64(n)
+		}
+	}
+	var ms runtime.MemStats
+	for {
+		time.Sleep(time.Second)
+		runtime.ReadMemStats(&ms)
+		if ms.HeapAlloc > limit<<30 {
+			if f := os.Getenv("PCHECK_HEAPPROF"); f != "" {
+				if w, err := os.Create(f); err == nil {
+					pprof.WriteHeapProfile(w)
+					w.Close()
+				}
+			}
+			fmt.Printf("CHECK-BROKEN property=%s analyser exceeded its memory budget (%d GB): the verdict is not available\n", prop, limit)
+			os.Exit(2)
+		}
+	}
 }
